@@ -43,7 +43,7 @@ Qed.
 (* ------------------------------------------------------------------ *)
 (* the exceptions a run of [p] collects when force_failure is [f0] at its start *)
 Definition collected (p : prog) (f0 : bool) : list exc :=
-  raised_by_user p ++ (if setup_returns p && (f0 || forced p) then [Exc CFail None] else []).
+  raised_by_user p ++ (if f0 || forced p then [Exc CFail None] else []).
 (* ... and what happens to details and handlers *)
 Definition core_events (p : prog) (f0 : bool) : list devent :=
   acts_events (snd (p_setup p)) ++ exc_events (setup_raise p)
@@ -51,7 +51,7 @@ Definition core_events (p : prog) (f0 : bool) : list devent :=
       then body_events p ++ acts_events (snd (p_teardown p)) ++ exc_events (teardown_raise p)
       else [])
   ++ flat_map entry_events (cleanup_entries p)
-  ++ exc_events (if setup_returns p && (f0 || forced p) then Some (Exc CFail None) else None).
+  ++ exc_events (if f0 || forced p then Some (Exc CFail None) else None).
 
 Lemma collected_fresh p : skipped p = false -> collected p false = raised p.
 Proof.
@@ -60,7 +60,7 @@ Qed.
 Lemma core_events_fresh p : skipped p = false -> core_events p false = events p.
 Proof.
   intros H. unfold core_events, events, forced_failure. rewrite H. cbn [negb andb orb].
-  destruct (setup_returns p && forced p); reflexivity.
+  destruct (forced p); reflexivity.
 Qed.
 
 (* _run_core on a program that is not skip-decorated: [t] is the state when everything has run,
@@ -85,15 +85,26 @@ Proof.
   destruct U1 as (F1 & R1 & K1 & T1). subst f1. rewrite Hst, app_nil_r in K1. rewrite Hst in T1.
   cbn [undo_all fold_left] in T1.
   unfold setup_returns. destruct (setup_raise p) as [e1|] eqn:Es; cbn [raisedb].
-  - (* setUp failed: only the cleanups *)
+  - (* setUp failed: only the cleanups, then the forced failure *)
     assert (Hsz : stack_size (stack s1) <= fuel) by (rewrite K1; lia).
     destruct (run_cleanups_spec fuel s1 Hsz) as (s2 & failing & I1 & I2 & I3 & I4 & I5). rewrite I1.
-    rewrite K1, C1 in *. exists s2.
-    assert (N : is_nil ((caught (Some e1) ++ [] ++ flat_map (fun e => caught (entry_raise e)) (pending (snd (p_setup p)))) ++ []) = false).
-    { rewrite !is_nil_app. cbn [caught]. pose proof (flatten_nonempty e1). destruct (flatten e1); [contradiction | reflexivity]. }
-    cbn [andb]. rewrite N. split; [reflexivity|]. split; [|split; [exact I4 | rewrite I5; exact T1]].
-    eapply ran_eq; [exact (ran_trans _ _ _ _ _ _ _ _ _ _ _ _ _ R1 I2) | ..]; cbn [app];
-      rewrite ?app_nil_r, ?orb_false_r, <- ?app_assoc; reflexivity.
+    rewrite K1, C1 in *.
+    pose proof (ran_trans _ _ _ _ _ _ _ _ _ _ _ _ _ R1 I2) as R2.
+    assert (F2 : force s2 = force s || (existsb sets_force (executed (snd (p_setup p))) || false
+                                        || existsb entry_forces (pending (snd (p_setup p))))).
+    { destruct R2 as [_ _ F _ _ _]. rewrite F. cbn [andb]. rewrite orb_false_r. reflexivity. }
+    assert (N : forall tl, is_nil ((caught (Some e1) ++ [] ++ flat_map (fun e => caught (entry_raise e)) (pending (snd (p_setup p)))) ++ tl) = false).
+    { intros tl. rewrite !is_nil_app. cbn [caught]. pose proof (flatten_nonempty e1). destruct (flatten e1); [contradiction | reflexivity]. }
+    cbn [andb]. rewrite N, F2.
+    destruct (force s || _) eqn:Ef.
+    + exists (got_exception (Exc CFail None) s2).
+      destruct (got_exception_spec (Exc CFail None) s2) as (G1 & G2 & G3 & G4 & G5 & G6 & G7 & G8).
+      split; [reflexivity|]. split; [|split; [congruence | rewrite G4, I5; exact T1]].
+      eapply ran_eq; [exact (ran_trans _ _ _ _ _ _ _ _ _ _ _ _ _ R2 (ran_got_exception _ _)) | ..];
+        cbn [exc_events caught map app andb]; rewrite ?app_nil_r, ?orb_false_r, <- ?app_assoc; reflexivity.
+    + exists s2. split; [reflexivity|]. split; [|split; [exact I4 | rewrite I5; exact T1]].
+      eapply ran_eq; [exact R2 | ..]; cbn [exc_events caught map app andb];
+        rewrite ?app_nil_r, ?orb_false_r, <- ?app_assoc; reflexivity.
   - (* setUp returned *)
     destruct (run_test_method_spec p s1) as [A2 (n2 & B2 & C2 & D2)].
     destruct (run_test_method p s1) as [s2' oe2]. cbn [fst snd] in A2, B2. subst oe2.
